@@ -428,7 +428,7 @@ def r10_2(chk, repo, cr):
     fa2 = [a for a in find_atoms(tm, lambda a: a[0] == "call" and call_name(a) == ".format")]
     t2 = string_value(fa2[0][1].as_atom()[1]) if fa2 else ""
     chk.ob("R10.2", SX, "_cell_string", "the CELL line has a wavelength followed by six parameters",
-           t2.split()[0] == "CELL" and t2.count("{}") == 6 and len(t2.split()) == 8, found=t2)
+           t2.split()[:1] == ["CELL"] and t2.count("{}") == 6 and len(t2.split()) == 8, found=t2)
     chk.ob("R10.2", CR, wq, "CELL is written from unit_cell.parameters (lengths, then angles in degrees) and read back as degrees",
            d["CELL"].key() == "self.unit_cell.parameters" and angle_unit(P.atom(("sub", d["CELL"], (P.atom(("slice", P.const(3), P.atom(("const", None)), P.atom(("const", None)))),)))) == "deg"
            and "unit='degrees'" in cr.ev("Crystal.from_shelx_string").returns[0].value.key() or
